@@ -1098,7 +1098,7 @@ type TypedRec struct {
 	GotSum    string       `json:"got_sum,omitempty"`
 	GotType   string       `json:"got_type,omitempty"`
 	SentSum2  bool         `json:"sent_has_sum,omitempty"` // the supplied values contain a sum type
-	Harness   string       `json:"harness,omitempty"` // trouble of the harness itself (never a violation)
+	Harness   string       `json:"harness,omitempty"`      // trouble of the harness itself (never a violation)
 	Problems  []string     `json:"problems,omitempty"`
 	Defaults  int          `json:"defaults"`
 	ReqExact  bool         `json:"req_exact"`  // some delivery reached the handler and every delivery that did received exactly what was supplied
